@@ -86,6 +86,27 @@ CHECKS = {
             "Axioms: the standard library's real-number axioms (ClassicalDedekindReals.sig_not_dec, sig_forall_dec, "
             "functional_extensionality_dep, Classical_Prop.classic) as printed by Print Assumptions; Go on amd64 does not fuse "
             "float operations (assumption, exercised by the bit-exact comparison); int64 conversion of in-range values truncates."),
+    "C17": (True,
+            "Theorems for all byte strings and all schedules of read sizes (zero-length reads, data with EOF, any number of reads): the "
+            "tokens delivered by the line scanner are exactly lines(data) (LF, CRLF, lone CR each one break), so the SubRip reader model "
+            "is schedule-independent; the split function is stable under extension of the buffer; an STL block present in full is "
+            "returned whole for every schedule. Tie: the scanner and readNBytes are run through verif hooks under harness-controlled "
+            "readers against the extracted model (exhaustive over {a,CR,LF}^<=5 x every split); every reader of every format is run "
+            "on every single split point / one-byte reads / random chunkings / 4096-65536-aligned splits and compared with its one-shot result.",
+            "Rocq proof over a scanner/block-reader model + extracted-model correspondence + exhaustive split-point enumeration",
+            "bufio.Scanner's buffer mechanics (growth, compaction, ErrTooLong) are a library contract: the model is the abstract scanner "
+            "in which each read appends an arbitrary prefix of the unread bytes; WebVTT/SSA reader models are not written yet, TTML "
+            "(encoding/xml) and teletext (astits) delegate to libraries: those are covered by the schedule enumeration only; no "
+            "transport-stream documents are generated yet."),
+    "C18": (True,
+            "Theorems: the SubRip reader model returns an error whenever the scanner stopped on an error, whatever was delivered before; "
+            "a writer modelled as its list of checked Write calls fails when the destination fails before the end of the document and "
+            "hands over every byte otherwise (instantiated for the SubRip writer). Tie: every reader is run with a read fault injected at "
+            "every offset (sampled on big documents; TTML up to the end of the root element), on lines of 2^16..2^20 bytes, every writer "
+            "against a destination failing after k bytes for every k, and the file helpers on missing/uncreatable paths.",
+            "Rocq proof over reader/writer error-propagation models + exhaustive fault-offset enumeration on the implementation",
+            "level is fault enumeration for WebVTT, SSA, TTML, STL (no Coq reader models yet); the SSA writer is exercised only with "
+            "metadata present; teletext streams are not generated yet."),
 }
 
 PENDING = "check not built yet in this session (work in progress; see DESIGN.md section 7 for the plan)"
